@@ -456,13 +456,6 @@ theorem decInt_not_bad {p : Nat} {q : Int} : decInt p q ≠ [] ∧ ∀ c ∈ dec
     · subst h; decide
 
 
-/-- attribute values the library passes through verbatim have the RFC's lexical class
-    (RESOLUTION is a decimal-resolution) -/
-def LexicalOK (p : Multivariant) : Prop :=
-  ∀ v ∈ p.variants, v.resolution ≠ [] → isResolution v.resolution = true
-
-instance (p : Multivariant) : Decidable (LexicalOK p) := by unfold LexicalOK; exact inferInstance
-
 theorem GOk_unquoted {specs : List AttrSpec} {k s : Str} (hk : k ≠ [] ∧ ∀ c ∈ k, isNameChar c = true)
     (hchars : s ≠ [] ∧ ∀ c ∈ s, c ≠ ',' ∧ badUnquoted c = false)
     (hpair : pairOK specs { name := k, value := s, quoted := false } = true) : GOk specs (k, .unquoted s) :=
